@@ -39,6 +39,19 @@ CHECKS = {
                 'output beyond "no unordered iteration reaches it"; key collisions of inserts inside order-free loops.',
         'technique': 'static analysis: iterator taint + loop/closure effect classification over MIR, entropy who-may-call, seed provenance',
     },
+    'C04': {
+        'text': 'Three structural clauses. (A) every i32 overflow/div/rem Assert, operator-trait call on i32 references and '
+                'trap-capable i32 method in bladeink (38 sites after the fix) is decided by operand provenance: story-valued '
+                'operands are violations (must be wrapping_*/checked_*), structural index arithmetic is discharged, the '
+                'rest is in a frozen table with reasons - so integer arithmetic on story values cannot panic in debug '
+                'while wrapping in release, nor panic on zero divisors, for any program. (B) in continue_internal a '
+                'step\'s StoryError always reaches add_error and is never propagated out of the interpreter loop; '
+                'add_error(false) force-ends. (C) reset_state replaces the whole state and re-runs reset_globals.',
+        'design_ref': 'DESIGN.md §4 C04',
+        'note': TRUST + ' Not decided: reachability of the interpreter\'s ~250 unwrap/index sites from compiler-accepted '
+                'programs (a per-site belief table would not be a decision).',
+        'technique': 'static analysis: MIR Assert enumeration + operand provenance classification, CFG must-pass-through',
+    },
 }
 
 NOT_APPLICABLE = {
